@@ -227,6 +227,37 @@ func runC19(c *Ctx) {
 	for _, s := range []string{"&#xD800;", "&#xDFFF;", "&#x110000;", "&#xFFFFFFFF;", "&#x100000000;", "&#4294967296;", "&#9999999;", "&#00000065;", "&#x0000000000041;"} {
 		one("boundaries", []byte(s))
 	}
+	// numeric references of every length up to 20 digits: low bits that spell a valid rune behind
+	// high bits that make the value too large, leading zeros, both bases, with and without ';'
+	for n := 1; n <= 20; n++ {
+		for k := 0; k < 12; k++ {
+			hexd := make([]byte, n)
+			decd := make([]byte, n)
+			for i := range hexd {
+				hexd[i] = "0123456789abcdefABCDEF"[c.R.Intn(22)]
+				decd[i] = byte('0' + c.R.Intn(10))
+			}
+			switch k % 4 {
+			case 0: // ...0041
+				if n >= 2 {
+					copy(hexd[n-2:], "41")
+					for i := 1; i < n-2; i++ {
+						hexd[i] = '0'
+					}
+				}
+			case 1:
+				for i := 0; i < n-2; i++ {
+					hexd[i], decd[i] = '0', '0'
+				}
+			}
+			for _, x := range []string{"x", "X"} {
+				one("numeric-refs", []byte("&#"+x+string(hexd)+";"))
+			}
+			one("numeric-refs", []byte("&#"+string(decd)+";"))
+			one("numeric-refs", []byte("a&#x"+string(hexd)+" b"))
+			one("numeric-refs", []byte("/u&#"+string(decd)+";&#x"+string(hexd)+";"))
+		}
+	}
 	nEnt := 0
 	util.VerifEntities(func(name string, _ []byte) {
 		if c.Quick() && nEnt%7 != int(c.Seed%7) {
